@@ -720,6 +720,12 @@ def make_table(rng, d, n, kinds=None, labels='str', regular=False):
             c = -float(rng.uniform(0.5, 3)) * prev[int(rng.integers(len(prev)))] + float(rng.uniform(-2, 2))
         elif k == 'const':
             c = np.full(n, float(np.round(rng.uniform(-5, 5), 2)))
+        elif k == 'offset':     # huge offset relative to the spread (geo-coordinates, timestamps): NOT a constant column
+            src = prev[int(rng.integers(len(prev)))] if prev else rng.normal(0, 1, n)
+            c = 1.0e6 + 0.5 * (src - float(np.mean(src))) / (float(np.std(src)) + 1e-12) + 0.3 * rng.normal(0, 1, n)
+        elif k == 'tiny':       # tiny absolute scale: NOT a constant column
+            src = prev[int(rng.integers(len(prev)))] if prev else rng.normal(0, 1, n)
+            c = 2e-9 * ((src - float(np.mean(src))) / (float(np.std(src)) + 1e-12) + 0.5 * rng.normal(0, 1, n))
         elif k == 'int':
             c = rng.integers(0, 4, n).astype(float)
             if len(set(c)) == 1:
